@@ -413,6 +413,19 @@ CLAIMS["C10"]["text"] += (" Translator tie (harness/py2coq_logger.py): Log.read_
                           "queue empty - the queue discipline of the model's write / flush.")
 
 
+def _series_tie():
+    import translated
+    return translated.series_tie()
+
+
+CLAIMS["C06"]["ties"] = (_series_tie,)
+CLAIMS["C06"]["technique"] += " + source-to-Gallina translator tie for the chunked series storage (regenerated and re-proved every run)"
+CLAIMS["C06"]["text"] += (" Translator tie (harness/py2coq_series.py): Market._fill_until is REGENERATED from /repo's source on every run - which series is assigned, which one is "
+                          "extended, whose length is measured and the padding value are read from each statement - and coq/translated/SeriesC06Proofs.v is re-checked against the "
+                          "generated text: it is the model's fill_until (every one of the eight series extended from itself to the next multiple of the chunk size with its own padding "
+                          "value), the function under the C06 theorems on recorded history across the 100-step chunks.")
+
+
 def _index_tie():
     import translated
     return translated.index_tie()
